@@ -9,7 +9,11 @@ def race_run(work, res):
                     gen_args=["-prop", "C11"], race=True).run(proofs_ok=True)
 
 
-CHECK = generic("C11", [dict(harness="pool", area="pool", gen_args=["-prop", "C11"])],
+# evtrace: every single synchronisation action of real concurrent executions of the pool (event-logging twin of the
+# scratch copy, harness/evinst) replayed label by label on Ekit.Pool's own step function (Driver/Ev/Pool.lean)
+EVTRACE = dict(harness="evtrace", area="evtrace", name="evtrace-pool", evinst=True, gen_args=["-targets", "pool"])
+
+CHECK = generic("C11", [dict(harness="pool", area="pool", gen_args=["-prop", "C11"]), EVTRACE],
                 thorough_extra=race_run, skel=["pool/task_pool.go"])
 
 MANIFEST = dict(
